@@ -17,7 +17,22 @@ import lv_universe as U  # noqa
 
 def main():
     cfg = json.loads(sys.argv[1])
-    logging.getLogger('labtech').setLevel(logging.CRITICAL)
+    # a check started from a background job inherits SIGINT = ignored (and Python then installs no handler for it), or a
+    # blocked signal mask: this program is about Ctrl-C, so it starts from the dispositions an interactive run has
+    signal.signal(signal.SIGINT, signal.default_int_handler)
+    signal.signal(signal.SIGTERM, signal.SIG_DFL)
+    signal.pthread_sigmask(signal.SIG_UNBLOCK, {signal.SIGINT, signal.SIGTERM})
+    # the coordinator announces that it has *handled* the first interrupt; the driver waits for that (not for a fixed delay)
+    # before it lets the running tasks finish or sends the second interrupt: under load the signal may be handled late
+    handled = threading.Event()
+
+    class _Seen(logging.Handler):
+        def emit(self, record):
+            if record.getMessage().startswith('Interrupted.'):
+                handled.set()
+    lt_logger = logging.getLogger('labtech')
+    lt_logger.handlers = [_Seen()]
+    lt_logger.setLevel(logging.INFO)
     gdir = cfg['gatedir']
     os.environ['LV_GATEDIR'] = gdir
     os.environ['LV_GATE_TIMEOUT'] = '30'
@@ -37,6 +52,7 @@ def main():
         out['t_first'] = time.monotonic()
         send = (lambda: os.killpg(os.getpgrp(), signal.SIGINT)) if cfg.get('group') else (lambda: os.kill(pid, signal.SIGINT))
         send()
+        out['handled_first'] = handled.wait(20)
         if cfg['double']:
             time.sleep(cfg.get('gap', 0.3))
             out['t_second'] = time.monotonic()
